@@ -74,14 +74,36 @@ package types
 //@ func (destinations Destinations) Validate(primaryShareName) (err)
 //@   requires len(destinations.Shares) <= 1000000
 //@   ensures err == nil ==> destinationsValid(destinations)
-//@   prop C20 C10
+//@   ensures err == nil ==> accountValidated(destinations.PrimaryShare)
+//@     && (forall k: int :: {destinations.Shares[k]} 0 <= k && k < len(destinations.Shares) ==> accountValidated(destinations.Shares[k].Destination))
+//@   prop C20 C10 C13
 //@ loop Destinations.Validate#1
 //@   invariant 0 <= \i && \i <= len(destinations.Shares)
 //@   invariant sharesChecked(destinations.Shares, \i) && sharesNonNegOf(destinations, \i)
+//@   invariant forall k: int :: {destinations.Shares[k]} 0 <= k && k < \i ==> accountValidated(destinations.Shares[k].Destination)
 //@   invariant !destinations.BurnShare.IsNil() && 0 <= destinations.BurnShare && destinations.BurnShare < P
+//@ // ---- what validation establishes for accounts, one sub distributor, and the whole parameter set (C13 / C10) ----
+//@ // the module-account table consulted by validation is the application's maccPerms (SetMaccPerms at start-up): assumed
+//@ func accountExistInMacPerms(accountId) (found)
+//@   trusted
+//@   ensures found == moduleExists(accountId)
+//@ pred accountValidated(a) = (a.Type == "MAIN" || a.Type == "INTERNAL_ACCOUNT" || a.Type == "BASE_ACCOUNT" || a.Type == "MODULE_ACCOUNT")
+//@   && (a.Type == "MODULE_ACCOUNT" ==> moduleExists(a.Id)) && (a.Type == "BASE_ACCOUNT" ==> bech32ok(a.Id)) && (a.Type == "INTERNAL_ACCOUNT" ==> a.Id != "")
+//@ func (account Account) Validate() (err)
+//@   ensures (err == nil) == accountValidated(account)
+//@   prop C13 C20
+//@ pred destinationAccountsValidated(dst) = accountValidated(dst.PrimaryShare)
+//@   && (forall k: int :: {dst.Shares[k]} 0 <= k && k < len(dst.Shares) ==> accountValidated(dst.Shares[k].Destination))
+//@ pred sourcesValidated(srcs) = len(srcs) >= 1 && (forall k: int :: {srcs[k]} 0 <= k && k < len(srcs) ==> srcs[k] != nil && accountValidated(srcs[k]))
+//@ pred subDistributorValidated(sd) = sd.Name != "" && destinationsValid(sd.Destinations) && destinationAccountsValidated(sd.Destinations) && sourcesValidated(sd.Sources)
 //@ func (subdistributor SubDistributor) Validate() (err)
 //@   requires len(subdistributor.Destinations.Shares) <= 1000000
-//@   prop C20
+//@   ensures err == nil ==> subDistributorValidated(subdistributor)
+//@   prop C20 C13 C10
+//@ loop SubDistributor.Validate#1
+//@   invariant 0 <= \i && \i <= len(subdistributor.Sources)
+//@   invariant forall k: int :: {subdistributor.Sources[k]} 0 <= k && k < \i ==> subdistributor.Sources[k] != nil && accountValidated(subdistributor.Sources[k])
+//@   invariant subdistributor.Name != "" && destinationsValid(subdistributor.Destinations) && destinationAccountsValidated(subdistributor.Destinations)
 
 //@ // ---- C20: entry points under the no-panic sweep (no functional claim here: they must not panic for any field values) ----
 //@ func (msg MsgUpdateParams) ValidateBasic() (r0)
